@@ -4,19 +4,28 @@
 (* receive goroutine that started has ended, and (unless the node was stopped) the offer queue   *)
 (* is empty.  It carries the acquire / release counts of the observed node's controller, the     *)
 (* high-water marks and the number of slots that can actually be obtained through the API.       *)
-(* Conjuncts: withinLimit allReturned fullyAvailable releasedOnce                                *)
+(* pm.offerin = one inbound offer sent while the harness itself holds openSure established,     *)
+(* unfinished streams of earlier accepted offers open (transfers in progress whatever the node   *)
+(* thinks of its slots).  maxT = high-water mark of outbound transfer goroutines running at once *)
+(* (start / end events, independent of the permits).                                             *)
+(* Conjuncts: withinLimit transfersWithinLimit allReturned fullyAvailable releasedOnce           *)
+(*            boundedInProgress                                                                  *)
 EXTENDS Integers, Sequences, FiniteSets, TLC, Json, SequencesExt
 Trace == ndJsonDeserialize("trace.ndjson")
 VARIABLES l, viol
 Failed(r) == {f \in DOMAIN r : ~r[f]}
 Quiet(e) == [ withinLimit    |-> e.maxIn <= e.limit /\ e.maxOut <= e.limit,
+              transfersWithinLimit |-> e.maxT <= e.limit,
               allReturned    |-> e.heldIn = 0 /\ e.heldOut = 0,
               fullyAvailable |-> e.freeIn = e.limit /\ e.freeOut = e.limit,
               releasedOnce   |-> ~e.overRelease /\ e.relIn <= e.acqIn /\ e.relOut <= e.acqOut ]
+OfferIn(e) == [ boundedInProgress |-> e.accepted => e.openSure < e.limit ]
 Init == l = 1 /\ viol = {}
 Next == /\ l <= Len(Trace) /\ l' = l + 1
         /\ LET e == Trace[l] IN
-           IF e.ev = "pm.quiescent" THEN viol' = viol \cup {<<l, f>> : f \in Failed(Quiet(e))} ELSE UNCHANGED viol
+           CASE e.ev = "pm.quiescent" -> viol' = viol \cup {<<l, f>> : f \in Failed(Quiet(e))}
+             [] e.ev = "pm.offerin" -> viol' = viol \cup {<<l, f>> : f \in Failed(OfferIn(e))}
+             [] OTHER -> UNCHANGED viol
 Spec == Init /\ [][Next]_<<l, viol>>
 Done == l = Len(Trace) + 1
 Report == Done => PrintT(<<"VIOL", ToJson(viol)>>)
